@@ -1,4 +1,5 @@
 import Witverif.Proofs.AbiSig
+import Witverif.Proofs.AbiCall
 /-!
 # C02 — Call glue follows the canonical calling convention for every signature
 
@@ -11,8 +12,10 @@ of the call are the canonical lowering of the arguments (flat, or a correctly la
 one pointer), results come back canonically (direct, return area, or task.return operands), and a
 caller-allocated parameter record is freed exactly once.
 
-Proved here: the signature theorems (all functions, both pointer widths).  The value/ledger claims
-about the glue are monitored on the real streams (partial obligations listed in the evidence).
+Proved here: the signature theorems (all functions, both pointer widths) and the value correctness
+of the import and export glue for functions passed entirely flat with memory-free types.  Indirect
+parameters, return areas, async glue and list-bearing types are monitored on the real streams
+(partial obligations listed in the evidence).
 Known defect: async exports never free an indirect parameter record (class
 `async-export-indirect-params-not-freed`).
 -/
@@ -66,6 +69,44 @@ theorem sig_eq (p : Nat) (hp : p = 4 ∨ p = 8) (v : Variant) (f : Func)
     ((wasmSignature v f).params.map (CoreTy.erase p), (wasmSignature v f).results.map (CoreTy.erase p))
       = Spec.flattenFunctype p v.async v.callback v.ctx f.params f.result :=
   wasmSignature_spec p hp v f hm hr
+
+/-- **Import glue carries values canonically (flat case).**  For every imported function whose
+parameters and result are memory-free and passed flat (≤ 16 flat parameters, ≤ 1 flat result), every
+argument tuple, whatever the callee returns (any well-formed core values), both pointer widths: the
+glue executes exactly one `CallWasm` whose operands are the canonical flat lowering of the
+arguments, then exactly one `Return` with the value the canonical ABI assigns to the callee's core
+results — and it traps exactly when the spec does.  Nothing else is called. -/
+theorem import_glue_value_correct (p : Nat) (hp : p = 4 ∨ p = 8) (canon : Ty → Bool) (f : Func)
+    (vals : List Val) (callee : List CVal)
+    (hm : memFreeAll f.params = true) (ht : Spec.hasTys f.params vals = true)
+    (hflat : (flattenList f.params).length ≤ 16)
+    (hmr : memFreeOpt f.result = true) (hrflat : (flattenOpt f.result).length ≤ 1)
+    (hwfc : WfFlat callee (Spec.flattenOpt p f.result))
+    (ss : List Stmt) (h : call canon .guestImport true false f = .ok ss) :
+    (execStmts { p, args := vals.map MV.v, callResults := callee.map MV.c } {} ss).map (fun r => r.2.calls) =
+      match f.result with
+      | none => some [("Return", []), ("CallWasm", (specLowerAll p f.params vals {}).1.map MV.c)]
+      | some t => (Spec.liftFlat p [] t callee).map fun rv =>
+          [("Return", [MV.v rv]), ("CallWasm", (specLowerAll p f.params vals {}).1.map MV.c)] :=
+  call_import_flat_correct p hp canon f vals callee hm ht hflat hmr hrflat hwfc ss h
+
+/-- **Export glue carries values canonically (flat case).**  For every exported (non-method) function
+with memory-free parameters and result passed flat, whatever well-formed core values the host
+passes: the user function is called exactly once with exactly the values the canonical ABI assigns
+to them (trap iff the spec traps, before anything is called), the glue returns exactly the canonical
+flat lowering of the user's result, and nothing is freed. -/
+theorem export_glue_value_correct (p : Nat) (hp : p = 4 ∨ p = 8) (canon : Ty → Bool) (f : Func)
+    (hnm : f.isMethod = false) (incoming : List CVal) (rv : Option Val)
+    (hm : memFreeAll f.params = true) (hflat : (flattenList f.params).length ≤ 16)
+    (hwf : WfFlat incoming (Spec.flattenList p f.params))
+    (hmr : memFreeOpt f.result = true) (hrflat : (flattenOpt f.result).length ≤ 1)
+    (hrv : Spec.hasTyOpt f.result rv = true)
+    (ss : List Stmt) (h : call canon .guestExport false false f = .ok ss) :
+    (execStmts { p, args := incoming.map MV.c, ifaceResult := rv.toList.map MV.v } {} ss).map
+        (fun r => (r.2.calls, r.2.freed)) =
+      (specLiftAll p [] f.params incoming).map fun vals =>
+        ([("Return", (Spec.lowerOpt p f.result rv {}).1.map MV.c), ("CallInterface", vals.map MV.v)], []) :=
+  call_export_flat_correct p hp canon f hnm incoming rv hm hflat hwf hmr hrflat hrv ss h
 
 /-- Non-vacuity: 17 `u32` parameters and a `string` result: indirect, with a return pointer for the
 import and a returned pointer for the export; 16 parameters stay flat. -/
